@@ -2,6 +2,7 @@ package props
 
 import (
 	"fmt"
+	"strings"
 	"time"
 
 	sdk "github.com/cosmos/cosmos-sdk/types"
@@ -59,6 +60,7 @@ type c02Finalize struct {
 	idx   uint64
 	proof string
 	by    string
+	upper bool // the recipient written in upper-case bech32: the same account, another string, hence a leaf no tree commits to
 }
 
 func (c02Sys) Root() *c02State {
@@ -107,7 +109,10 @@ func (c02Sys) Letters(s *c02State) []engine.Letter {
 					continue
 				}
 				for _, by := range []string{"bob", "stranger"} {
-					ls = append(ls, engine.Letter{Name: fmt.Sprintf("Finalize(w%d,idx=%d,proof=%s,by=%s)", wi+1, idx, pr, by), Data: c02Finalize{wi, idx, pr, by}})
+					ls = append(ls, engine.Letter{Name: fmt.Sprintf("Finalize(w%d,idx=%d,proof=%s,by=%s)", wi+1, idx, pr, by), Data: c02Finalize{wi, idx, pr, by, false}})
+				}
+				if wi == 0 && pr == "R12" {
+					ls = append(ls, engine.Letter{Name: fmt.Sprintf("Finalize(w1,idx=%d,proof=R12,by=bob,to=UPPER-CASE-SPELLING)", idx), Data: c02Finalize{wi, idx, pr, "bob", true}})
 				}
 			}
 		}
@@ -156,8 +161,17 @@ func (c02Sys) Step(s *c02State, l engine.Letter) (*c02State, string, *engine.Vio
 		wdr := s.fx.ws[d.w]
 		t := s.fx.trees[d.proof]
 		msg := t.claim(t.index(wdr), d.idx, d.by)
+		if d.upper {
+			msg.To = strings.ToUpper(msg.To)
+		}
 		bobBefore := balanceOf(s.w, ctx, world.Addr("bob"), "uxx")
 		res := s.w.Deliver(ctx, msg)
+		if d.upper && res.OK() {
+			if s.paid[d.w] {
+				return c, "accepted", tagged(viol("withdrawal-paid-at-most-once", "%s was paid, and paid again when resubmitted with its recipient spelled in upper case (idx=%d)", wdr, d.idx), "kind", "double-pay")
+			}
+			return c, "accepted", viol("finalize-needs-final-output-with-matching-root", "a claim whose recipient string differs from the committed one (upper-case spelling) was accepted (idx=%d)", d.idx)
+		}
 		valid := false
 		if d.idx >= 1 && d.idx <= uint64(len(s.outs)) {
 			o := s.outs[d.idx-1]
@@ -184,6 +198,9 @@ func (c02Sys) Step(s *c02State, l engine.Letter) (*c02State, string, *engine.Vio
 		}
 		if s.w.Digest(ctx) != before {
 			return c, "rejected", viol("rejected-message-has-no-effect", "rejected finalize changed state: %v", res.Err)
+		}
+		if d.upper {
+			return c, "rejected-other-spelling", nil
 		}
 		if valid && !s.paid[d.w] {
 			return c, "rejected-though-valid", nil
